@@ -26,7 +26,8 @@ RULE = ("Episodes = small net decorated with controllers, groups, costs, measure
         "once, then BOTH receive the same subsequent ops and every later calculation must agree. Saves with an "
         "injected stream error (write at byte n, close) must raise, leave the live net unchanged and be followed by "
         "a clean round trip. Non-trivial = a save/load pair was compared; distinct = distinct (format/flavour, "
-        "reference kinds present, ops since the previous save, fault kind).")
+        "reference kinds present, ops since the previous save, fault kind)."
+        ' Encryption with path, stream and string targets; a raising load is a violation.')
 COMPONENTS = {"real": ["to_json/from_json(+_string), to_pickle/from_pickle, to_excel/from_excel, to_sqlite/"
                        "from_sqlite, PPJSONEncoder/Decoder, encryption", "openpyxl / sqlite3 on a tmpfs directory"],
               "stub": ["SimStream (in-memory text/binary streams honouring the io contract, failing write)",
